@@ -203,6 +203,8 @@ func rulesC04(e *Engine, r *Report) {
 	}
 	// ---------------------------------------------------------------- R04.7
 	e.shareRule(r, "C10", "R10.3", "R04.7", "the predecessor the sender announces for a re-queued file is the one it announced before: a resumed / re-queued file (sts.Recovered) answers with its OWN stored predecessor - the type test comes first and wins over the live queue neighbour (which may be a later file of the group that transitively waits for this one: a cycle the receiver can only break by giving up the order)")
+	// ---------------------------------------------------------------- R04.8
+	e.shareRule(r, "C10", "R10.6", "R04.8", "after a sender restart the chain of announced predecessors continues through the files the receiver already holds: skipping such a placeholder in Pop unlinks the node BEFORE it, never the placeholder itself, so the first real file behind it still announces it")
 }
 
 // allocsOf returns the composite-literal allocations of type *T in fn.
